@@ -1,7 +1,7 @@
 (* Dispatch table: entry name -> model entry point.  The harness names the entry on every
    case line; the same table is used by the extracted driver and by the kernel cross-check. *)
 Require Import Gengo.Base.Str Gengo.Base.Sexp.
-Require Gengo.Model.Tags Gengo.Model.JsonTag Gengo.Model.Tracker Gengo.Model.Namer.
+Require Gengo.Model.Tags Gengo.Model.JsonTag Gengo.Model.Tracker Gengo.Model.Namer Gengo.Model.Order.
 
 Definition entries : list (string * (sexp -> option sexp)) := [
   ("C08.old", Tags.run_old);
@@ -18,7 +18,11 @@ Definition entries : list (string * (sexp -> option sexp)) := [
   ("C07.run#pcheck", Tracker.run_pcheck_trace);
   ("C14.names", Namer.run_names);
   ("C14.plural", Namer.run_plural);
-  ("C14.private", Namer.run_private)
+  ("C14.private", Namer.run_private);
+  ("C03.order", Order.run_order);
+  ("C03.order#pcheck", Order.run_pcheck_order);
+  ("C03.ordertypes", Order.run_order_types);
+  ("C03.ordertypes#pcheck", Order.run_pcheck_order_types)
 ]%string.
 
 Fixpoint find_entry (name : str) (l : list (string * (sexp -> option sexp))) : option (sexp -> option sexp) :=
